@@ -141,17 +141,33 @@ package searchset
 //@   loop 3 invariant forall h int, y int :: i <= h && h < len(matched) && 0 <= y && y < len(matched[h]) ==> matched[h][y] == old(matched[h][y])
 //@   props C17
 //
-//@ // ASSUMED (not verified): targetMatchedRanges keeps pointers into slice
-//@ // elements in a map (`extended[i] = &possible[i]`), which is outside the
-//@ // subset of Go the verifier models. Its contract below is trusted: every
-//@ // range it returns was built from a target node and a source hash entry.
+//@ // targetMatchedRanges keeps pointers to elements of `possible` in a map
+//@ // (`extended[i] = &possible[i]`); such pointers are modelled as first-class
+//@ // values (uses ELEMPTR). okP: every list of candidate ranges is non-empty,
+//@ // freshly allocated, holds fresh ranges inside the target, and no two lists
+//@ // share a backing array.
+//@ spec okList(l MatchRanges, tn int) bool = len(l) > 0 && fresh(l) && off(l) == 0 && (forall y int :: 0 <= y && y < len(l) ==> okMR(l[y], tn) && fresh(l[y]))
+//@ spec okP(ps []MatchRanges, tn int) bool = (forall g int :: 0 <= g && g < len(ps) ==> okList(ps[g], tn)) && (forall g int, h int :: 0 <= g && g < h && h < len(ps) ==> ref(ps[g]) != ref(ps[h]))
+//@ spec okM(ms MatchRanges, tn int) bool = (ms == nil || fresh(ms)) && (forall k int :: 0 <= k && k < len(ms) ==> okMR(ms[k], tn) && fresh(ms[k]))
+//@ spec sepMP(ms MatchRanges, ps []MatchRanges) bool = forall g int :: 0 <= g && g < len(ps) ==> ref(ms) != ref(ps[g])
+//@ spec okExt(ext map[int]*MatchRanges, ms MatchRanges) bool = forall k int :: (k in ext) ==> ext[k] != nil && len(*ext[k]) > 0 && off(*ext[k]) == 0 && ref(*ext[k]) != ref(ms) && ref(*ext[k]) < nextref() && (*ext[k])[0] != nil
+//@
 //@ func targetMatchedRanges
-//@   trusted
+//@   uses ELEMPTR SUBSLICE-PREFIX
 //@   requires wfSS(src) && wfSS(target)
 //@   ensures okMRs(result, len(target.Tokens))
 //@   ensures result == nil || fresh(result)
 //@   ensures forall k int :: 0 <= k && k < len(result) ==> fresh(result[k])
 //@   modifies nothing
+//@   loop 1 invariant okM(matched, len(target.Tokens)) && (possible == nil || fresh(possible)) && okP(possible, len(target.Tokens)) && sepMP(matched, possible) && (previous == nil || previous.tokens != nil)
+//@   loop 2 invariant okM(matched, len(target.Tokens)) && (possible == nil || fresh(possible)) && okP(possible, len(target.Tokens)) && sepMP(matched, possible)
+//@   loop 3 invariant okM(matched, len(target.Tokens)) && (possible == nil || fresh(possible)) && okP(possible, len(target.Tokens)) && sepMP(matched, possible) && extended != nil && fresh(extended) && okExt(extended, matched) && okRange(tv, len(target.Tokens))
+//@   loop 4 invariant okM(matched, len(target.Tokens)) && (possible == nil || fresh(possible)) && okP(possible, len(target.Tokens)) && sepMP(matched, possible) && extended != nil && fresh(extended) && okExt(extended, matched) && okMR(r, len(target.Tokens)) && fresh(r) && sv != nil
+//@   loop 5 invariant 0 <= i && okM(matched, len(target.Tokens)) && (possible == nil || fresh(possible)) && okP(possible, len(target.Tokens)) && sepMP(matched, possible) && extended != nil && fresh(extended) && okExt(extended, matched)
+//@   loop 6 invariant okM(matched, len(target.Tokens)) && (possible == nil || fresh(possible)) && okP(possible, len(target.Tokens)) && sepMP(matched, possible) && extended != nil && fresh(extended) && okExt(extended, matched) && 0 <= i && i < len(possible)
+//@   loop 7 invariant 0 <= i && okM(matched, len(target.Tokens)) && (possible == nil || fresh(possible)) && okP(possible, len(target.Tokens)) && sepMP(matched, possible)
+//@   loop 8 invariant 0 <= i && i < len(possible) && i < j && okM(matched, len(target.Tokens)) && (possible == nil || fresh(possible)) && okP(possible, len(target.Tokens)) && sepMP(matched, possible) && okList(p1, len(target.Tokens))
+//@   props C17
 //@
 //@ func extern sort.Sort
 //@   trusted
